@@ -67,6 +67,8 @@ class Sandbox:
         self.clock += 1
         return 1_000_000_000_000_000_000 + self.clock * 1_000_000
 
+    FIXED_STAMP = 1_500_000_000_000_000_000
+
     def stamp(self, path, t=None):
         if t is None:
             t = self.tick()
@@ -223,6 +225,29 @@ def apply_mutation(sb, m, ref_tree=None):
         os.utime(p, ns=(st.st_atime_ns, st.st_mtime_ns))
         if ref_tree is not None:
             ref_tree.write_keep_meta(p, new)
+        return True
+    if op == 'touch1':
+        # same bytes, mtime advanced by exactly one nanosecond
+        if not os.path.isfile(p):
+            return False
+        st = os.stat(p)
+        os.utime(p, ns=(st.st_atime_ns, st.st_mtime_ns + 1))
+        if ref_tree is not None:
+            ref_tree.touch(p)
+        return True
+    if op == 'grow':
+        # other bytes AND other size, but the same mtime
+        if not os.path.isfile(p):
+            return False
+        st = os.stat(p)
+        with open(p, 'rb') as f:
+            data = f.read()
+        new = data + b'+'
+        with open(p, 'wb') as f:
+            f.write(new)
+        os.utime(p, ns=(st.st_atime_ns, st.st_mtime_ns))
+        if ref_tree is not None:
+            ref_tree.write(p, new)
         return True
     if op == 'del':
         if not os.path.isfile(p):
